@@ -55,11 +55,11 @@ theorem runP_block (env : Env) (b : Block) (wf : b.WF env) (cs : Bool) (li : Nat
       = .test b.language (cfgLines li b.config) (number (li + 1) b.comments)
           (number (li + 1 + b.comments.length) b.code)
         :: runP env.languages .top true (li + b.lines.length) rest := by
-  obtain ⟨hx, hl, _, hbody, hcm, _, _⟩ := wf
+  obtain ⟨hx, hl, _, hbody, hcl, hcm, _, _⟩ := wf
   have hcomm : ∀ c ∈ b.comments, startsWith c b.bt = false := fun c hc => hbody c (by simp [Block.body, hc])
   have hcode : ∀ c ∈ b.code, startsWith c b.bt = false := fun c hc => hbody c (by simp [Block.body, hc])
   have hcmd : startsWith b.cmdLine b.bt = false := hcode _ (by simp [Block.code])
-  have hrest : ∀ c ∈ b.more.map contLine ++ (b.exps ++ b.exitLines), startsWith c b.bt = false :=
+  have hrest : ∀ c ∈ b.more.map contLine ++ b.after, startsWith c b.bt = false :=
     fun c hc => hcode c (by simp only [Block.code, List.mem_cons]; exact Or.inr hc)
   have h1 : (!cs && decide (b.opener = frontMatterFence)) = false := by simp [opener_ne_front hx]
   simp only [Block.lines, List.cons_append]
@@ -75,15 +75,95 @@ theorem runP_block (env : Env) (b : Block) (wf : b.WF env) (cs : Bool) (li : Nat
   simp only [runP, hcmd, hnc]
   simp only [Bool.and_false, Bool.false_eq_true, if_false, List.nil_append]
   -- the other code lines
-  rw [show b.more.map contLine ++ (b.exps ++ b.exitLines) ++ b.bt :: rest
-      = (b.more.map contLine ++ (b.exps ++ b.exitLines)) ++ (b.bt :: rest) by simp]
+  rw [show b.more.map contLine ++ b.after ++ b.closer :: rest
+      = (b.more.map contLine ++ b.after) ++ (b.closer :: rest) by simp]
   rw [test_code _ _ _ _ _ _ _ _ _ _ (by simp) hrest]
   -- the closing fence
-  simp only [runP, startsWith_self, if_true]
+  simp only [runP, hcl, if_true]
   simp only [number, List.length_cons, List.length_append, List.length_map, List.cons_append, List.nil_append,
     List.length_nil]
   congr 2
   all_goals omega
+
+theorem verb_exact (L : List Line) (cs : Bool) (bt : Line) (start : Nat) (language : Line) (body : List Line) :
+    ∀ (acc : List Line) (li : Nat) (closer : Line) (rest : List Line),
+      (∀ x ∈ body, startsWith x bt = false) → startsWith closer bt = true →
+      runP L (.verb bt start language acc) cs li (body ++ closer :: rest)
+        = .verbatim start language (acc ++ body ++ [closer]) :: runP L .top cs (li + body.length + 1) rest := by
+  induction body with
+  | nil => intro acc li closer rest _ hc; simp [runP, hc]
+  | cons l r ih =>
+    intro acc li closer rest hb hc
+    have hl := hb l (by simp)
+    simp only [List.cons_append, runP, hl, Bool.false_eq_true, if_false]
+    rw [ih _ _ _ _ (fun x hx => hb x (by simp [hx])) hc]
+    have ha : li + 1 + r.length + 1 = li + (r.length + 1) + 1 := by omega
+    simp [ha]
+
+/-- a rendered foreign block is one `verbatim` token; the tokenizer continues behind it -/
+theorem runP_foreign (env : Env) (v : Fenced) (wf : v.ForeignWF env) (cs : Bool) (li : Nat) (rest : List Line) :
+    runP env.languages .top cs li (v.lines ++ rest)
+      = .verbatim li v.language v.lines :: runP env.languages .top true (li + v.lines.length) rest := by
+  obtain ⟨hx, hl, _, hbody, hcl⟩ := wf
+  have h1 : (!cs && decide (v.opener = frontMatterFence)) = false := by simp [opener_ne_front hx]
+  simp only [Fenced.lines, List.cons_append]
+  rw [runP_top_cons]
+  simp only [h1, fencePure_of hx, hl]
+  simp only [Bool.not_false, if_true, Bool.false_eq_true, if_false, List.append_assoc, List.cons_append,
+    List.nil_append]
+  rw [verb_exact _ _ _ _ _ _ _ _ _ _ hbody hcl]
+  have ha : li + 1 + v.body.length + 1 = li + (v.body.length + (0 + 1) + 1) := by omega
+  simp [ha]
+
+/-- a rendered scrut block without command is one `test` token without code lines -/
+theorem runP_noCommand (env : Env) (v : Fenced) (wf : v.NoCommandWF env) (cs : Bool) (li : Nat) (rest : List Line) :
+    runP env.languages .top cs li (v.lines ++ rest)
+      = .test v.language (cfgLines li v.config) (number (li + 1) v.body) []
+        :: runP env.languages .top true (li + v.lines.length) rest := by
+  obtain ⟨hx, hl, _, hbody, hcl, hcm⟩ := wf
+  have h1 : (!cs && decide (v.opener = frontMatterFence)) = false := by simp [opener_ne_front hx]
+  simp only [Fenced.lines, List.cons_append]
+  rw [runP_top_cons]
+  simp only [h1, fencePure_of hx, hl]
+  simp only [Bool.not_true, Bool.false_eq_true, if_false, List.append_assoc, List.cons_append, List.nil_append]
+  rw [test_comments _ _ _ _ _ _ [] _ _ hcm hbody]
+  simp only [runP, hcl, if_true, List.nil_append]
+  have ha : li + 1 + v.body.length + 1 = li + (v.body.length + (0 + 1) + 1) := by omega
+  simp [ha]
+
+theorem front_exact (L : List Line) (cs : Bool) (body : List Line) :
+    ∀ (acc : Numbered) (li : Nat) (rest : List Line), (∀ x ∈ body, x ≠ frontMatterFence) →
+      runP L (.front acc) cs li (body ++ frontMatterFence :: rest)
+        = .docConfig (acc ++ number li body) :: runP L .top cs (li + body.length + 1) rest := by
+  induction body with
+  | nil => intro acc li rest _; simp [runP, number]
+  | cons l r ih =>
+    intro acc li rest hb
+    have hl := hb l (by simp)
+    simp only [List.cons_append, runP, hl, if_false]
+    rw [ih _ _ _ (fun x hx => hb x (by simp [hx]))]
+    have ha : li + 1 + r.length + 1 = li + (r.length + 1) + 1 := by omega
+    simp [ha, number]
+
+/-- rendered front-matter, while no content has started, is one `docConfig` token; content has
+still not started behind it -/
+theorem runP_front (L : List Line) (body : List Line) (hb : ∀ x ∈ body, x ≠ frontMatterFence)
+    (li : Nat) (rest : List Line) :
+    runP L .top false li ((Item.front body).lines ++ rest)
+      = .docConfig (number (li + 1) body) :: runP L .top false (li + (body.length + 2)) rest := by
+  simp only [Item.lines, List.cons_append, List.append_assoc, List.nil_append]
+  rw [runP_top_cons]
+  simp only [Bool.not_false, Bool.true_and, decide_true, if_true]
+  rw [front_exact _ _ _ _ _ _ hb]
+  have ha : li + 1 + body.length + 1 = li + (body.length + 2) := by omega
+  simp [ha]
+
+theorem joinNumbered_number (k : Nat) (ls : List Line) : joinNumbered (number k ls) = joinNl ls := by
+  have : ∀ k, (number k ls).map (·.2) = ls := by
+    induction ls with
+    | nil => intro k; rfl
+    | cons l r ih => intro k; simp [number, ih]
+  simp [joinNumbered, this]
 
 /-! ## parser side -/
 
@@ -129,26 +209,6 @@ theorem addAll_conts (expOk : Line → Bool) (xs : List Line) :
     have := ih { s with command := s.command ++ [x] } (k + 1) h1 (by simp) h3
     simpa [h1, h3] using this
 
-theorem addAll_exps (expOk : Line → Bool) (es : List Line) :
-    ∀ (s : LineParser.State Cfg) (k : Nat), s.command ≠ [] → s.allowMultipleCommands = false →
-      (∀ e ∈ es, expOk e = true ∧ extractExitCode e = none ∧ stripPrefix ['>', ' '] e = none) →
-      ∃ ic, addAll expOk s (number k es)
-        = .ok { s with inCommand := ic, expectations := s.expectations ++ es } := by
-  induction es with
-  | nil => intro s k _ _ _; exact ⟨s.inCommand, by simp [number, addAll]⟩
-  | cons e r ih =>
-    intro s k h2 h3 hg
-    obtain ⟨g1, g2, g3⟩ := hg e (by simp)
-    have he : s.command.isEmpty = false := by cases hh : s.command <;> simp_all
-    have hsp : (if s.inCommand = true then stripPrefix ['>', ' '] e else none) = none := by
-      split <;> simp [g3]
-    obtain ⟨ic, hic⟩ := ih { s with inCommand := false, expectations := s.expectations ++ [e] } (k + 1)
-      h2 h3 (fun x hx => hg x (by simp [hx]))
-    refine ⟨ic, ?_⟩
-    simp only [number, addAll, State.addBody, h3, he, Bool.or_self, Bool.false_eq_true, if_false,
-      State.addBodyRest, hsp, g2, g1, if_true]
-    simpa [h3] using hic
-
 theorem exit_line_head {x : Line} {n : Nat} (h : extractExitCode x = some n) :
     stripPrefix ['>', ' '] x = none := by
   unfold extractExitCode at h
@@ -156,22 +216,72 @@ theorem exit_line_head {x : Line} {n : Nat} (h : extractExitCode x = some n) :
   · simp [stripPrefix]
   · cases h
 
-theorem addBody_exit (expOk : Line → Bool) (s : LineParser.State Cfg) (x : Line) (n k : Nat)
-    (h2 : s.command ≠ []) (h3 : s.allowMultipleCommands = false) (h4 : s.exitCode = none)
-    (hx : extractExitCode x = some n) :
-    s.addBody expOk x k = .ok ({ s with inCommand := false, exitCode := some n }, .exitCode) := by
-  have he : s.command.isEmpty = false := by cases hh : s.command <;> simp_all
-  have hsp : (if s.inCommand = true then stripPrefix ['>', ' '] x else none) = none := by
-    split <;> simp [exit_line_head hx]
-  simp [State.addBody, h3, he, State.addBodyRest, hsp, hx, h4]
+/-- the lines after the command: expectations, among them at most one exit code -/
+theorem addAll_after (expOk : Line → Bool) (after : List Line) :
+    ∀ (s : LineParser.State Cfg) (k : Nat), s.command ≠ [] → s.allowMultipleCommands = false →
+      (s.inCommand = true → match after with
+        | a :: _ => stripPrefix ['>', ' '] a = none
+        | [] => True) →
+      (∀ e ∈ expLines after, expOk e = true) →
+      (match s.exitCode with
+        | some _ => exitCodes after = []
+        | none => (exitCodes after).length ≤ 1) →
+      ∃ ic, addAll expOk s (number k after)
+        = .ok { s with inCommand := ic, expectations := s.expectations ++ expLines after,
+                       exitCode := s.exitCode.or (exitCodes after).head? } := by
+  induction after with
+  | nil =>
+    intro s k _ _ _ _ _
+    refine ⟨s.inCommand, ?_⟩
+    simp [number, addAll, expLines, exitCodes]
+  | cons a r ih =>
+    intro s k h2 h3 hcont hexp hcode
+    have he : s.command.isEmpty = false := by cases hh : s.command <;> simp_all
+    cases hx : extractExitCode a with
+    | some n =>
+      -- an exit code line
+      have hnone : s.exitCode = none := by
+        cases hh : s.exitCode with
+        | none => rfl
+        | some c => rw [hh] at hcode; simp [exitCodes, hx] at hcode
+      have hsp : (if s.inCommand = true then stripPrefix ['>', ' '] a else none) = none := by
+        split <;> simp [exit_line_head hx]
+      have hr : exitCodes r = [] := by
+        rw [hnone] at hcode
+        simp only [exitCodes, List.filterMap_cons, hx, List.length_cons] at hcode
+        exact List.eq_nil_of_length_eq_zero (by simp only [exitCodes]; omega)
+      obtain ⟨ic, hic⟩ := ih { s with inCommand := false, exitCode := some n } (k + 1) h2 h3
+        (by intro h; cases h) (fun e he' => hexp e (by simp [expLines, hx] at he' ⊢; exact he')) (by simpa using hr)
+      refine ⟨ic, ?_⟩
+      simp only [number, addAll, State.addBody, h3, he, Bool.or_self, Bool.false_eq_true, if_false,
+        State.addBodyRest, hsp, hx, hnone, Option.isSome_none]
+      simp only [h3] at hic ⊢
+      rw [hic]
+      simp [expLines, exitCodes, hx, hnone]
+    | none =>
+      -- an expectation line
+      have hsp : (if s.inCommand = true then stripPrefix ['>', ' '] a else none) = none := by
+        split
+        · rename_i h; exact hcont h
+        · rfl
+      have g1 : expOk a = true := hexp a (by simp [expLines, hx])
+      obtain ⟨ic, hic⟩ := ih { s with inCommand := false, expectations := s.expectations ++ [a] } (k + 1) h2 h3
+        (by intro h; cases h) (fun e he' => hexp e (by simp [expLines, hx] at he' ⊢; exact Or.inr he'))
+        (by simpa [exitCodes, hx] using hcode)
+      refine ⟨ic, ?_⟩
+      simp only [number, addAll, State.addBody, h3, he, Bool.or_self, Bool.false_eq_true, if_false,
+        State.addBodyRest, hsp, hx, g1, if_true]
+      simp only [h3] at hic ⊢
+      rw [hic]
+      simp [expLines, exitCodes, hx]
 
 /-- all code lines of a well-formed block, fed to a clean state -/
 theorem addAll_block (env : Env) (b : Block) (wf : b.WF env) (s : LineParser.State Cfg) (hc : Clean s) (k : Nat) :
     ∃ s', addAll env.expOk s (number k b.code) = .ok s' ∧ s'.command = b.cmd :: b.more ∧
-      s'.expectations = b.exps ∧ s'.exitCode = b.exit.map (·.2) ∧ s'.outputStartIndex = some k ∧
+      s'.expectations = b.exps ∧ s'.exitCode = b.exit ∧ s'.outputStartIndex = some k ∧
       s'.testcases = s.testcases ∧ s'.title = s.title ∧ s'.config = s.config ∧
       s'.allowMultipleCommands = false := by
-  obtain ⟨_, _, _, _, _, hexps, hexit⟩ := wf
+  obtain ⟨_, _, _, _, _, _, hcodes, hexps, hfirst⟩ := wf
   -- the `$` line
   simp only [Block.code, number, addAll, Block.cmdLine, addBody_cmd env.expOk s hc]
   -- the `> ` lines
@@ -180,28 +290,13 @@ theorem addAll_block (env : Env) (b : Block) (wf : b.WF env) (s : LineParser.Sta
     { s with inCommand := true, outputStartIndex := some k, command := [b.cmd] } (k + 1) rfl (by simp) hc.amc
   rw [hconts]
   simp only []
-  -- the expectation lines
-  rw [number_append, addAll_append]
-  obtain ⟨ic, hic⟩ := addAll_exps env.expOk b.exps
+  -- the lines after the command
+  obtain ⟨ic, hic⟩ := addAll_after env.expOk b.after
     { s with inCommand := true, outputStartIndex := some (k), command := [b.cmd] ++ b.more }
-    (k + 1 + (b.more.map contLine).length) (by simp) hc.amc hexps
+    (k + 1 + (b.more.map contLine).length) (by simp) hc.amc (fun _ => hfirst) hexps
+    (by simp only [hc.code]; exact hcodes)
   rw [hic]
-  simp only []
-  -- the exit code line
-  cases hb : b.exit with
-  | none =>
-    simp only [Block.exitLines, hb, number, addAll]
-    exact ⟨_, rfl, by simp, by simp [hc.exps], by simp [hc.code], rfl, rfl, rfl, rfl, hc.amc⟩
-  | some xn =>
-    obtain ⟨x, n⟩ := xn
-    rw [hb] at hexit
-    simp only [Block.exitLines, hb, number, addAll]
-    have hex := addBody_exit env.expOk
-      { s with inCommand := ic, outputStartIndex := some k, command := [b.cmd] ++ b.more,
-               expectations := s.expectations ++ b.exps }
-      x n (k + 1 + (b.more.map contLine).length + b.exps.length) (by simp) hc.amc (by simp [hc.code]) hexit
-    rw [hex]
-    exact ⟨_, rfl, by simp, by simp [hc.exps], by simp, rfl, rfl, rfl, rfl, hc.amc⟩
+  exact ⟨_, rfl, by simp, by simp [hc.exps, Block.exps], by simp [hc.code, Block.exit], rfl, rfl, rfl, rfl, hc.amc⟩
 
 theorem code_getLast (b : Block) (k : Nat) : ∃ i l, (number k b.code).getLast? = some (i, l) := by
   cases h : (number k b.code).getLast? with
@@ -210,25 +305,28 @@ theorem code_getLast (b : Block) (k : Nat) : ∃ i l, (number k b.code).getLast?
     simp [Block.code, number] at this
   | some p => exact ⟨p.1, p.2, rfl⟩
 
+theorem cfg_eval (env : Env) (li : Nat) (config : Line) (h3 : cfgAccepted env config) :
+    (if (cfgLines li config).isEmpty then (.ok none : Except Err Cfg)
+      else if env.testCfgOk (joinNumbered (cfgLines li config)) then .ok (some (joinNumbered (cfgLines li config)))
+      else .error .testConfigYaml) = .ok (stripBraces config) := by
+  unfold cfgAccepted at h3
+  unfold cfgLines
+  cases hs : stripBraces config with
+  | none => simp
+  | some c =>
+    rw [hs] at h3
+    simp at h3
+    simp [joinNumbered, joinNl, h3]
+
 /-- on a clean state, the token of a well-formed block becomes exactly the test that is written -/
 theorem stepTok_block (env : Env) (b : Block) (wf : b.WF env) (st : PState) (hc : Clean st.lp)
     (li k : Nat) (cms : Numbered) :
     ∃ st', stepTok env st (.test b.language (cfgLines li b.config) cms (number k b.code)) = .ok st' ∧
       Clean st'.lp ∧ st'.lp.title = none ∧ st'.titleParagraph = [] ∧ st'.docConfigs = st.docConfigs ∧
       st'.lp.testcases = st.lp.testcases ++
-        [{ title := st.lp.title.getD [], command := b.cmd :: b.more, exitCode := b.exit.map (·.2),
+        [{ title := st.lp.title.getD [], command := b.cmd :: b.more, exitCode := b.exit,
            expectations := b.exps, lineNumber := k + 1, config := some (stripBraces b.config) }] := by
-  have hcfg : (if (cfgLines li b.config).isEmpty then (.ok none : Except Err Cfg)
-      else if env.testCfgOk (joinNumbered (cfgLines li b.config)) then .ok (some (joinNumbered (cfgLines li b.config)))
-      else .error .testConfigYaml) = .ok (stripBraces b.config) := by
-    have h3 := wf.2.2.1
-    unfold cfgLines
-    cases hs : stripBraces b.config with
-    | none => simp
-    | some c =>
-      rw [hs] at h3
-      simp at h3
-      simp [joinNumbered, joinNl, h3]
+  have hcfg := cfg_eval env li b.config wf.2.2.1
   have hclean : Clean (st.lp.setConfig (stripBraces b.config)) :=
     ⟨hc.cmd, hc.exps, hc.code, hc.osi, hc.amc⟩
   obtain ⟨s', h1, h2, h3, h4, h5, h6, h7, h8, h9⟩ :=
@@ -247,59 +345,97 @@ theorem fencePure_none_of {l : Line} (h : extractCodeBlockStart l = .ok none) : 
   rw [extractCodeBlockStart_eq] at h
   injection h
 
+/-- the token of a scrut block without command: no test, the title is kept, the run of title
+lines ends -/
+theorem stepTok_noCommand (env : Env) (v : Fenced) (wf : v.NoCommandWF env) (st : PState) (li : Nat)
+    (cms : Numbered) :
+    stepTok env st (.test v.language (cfgLines li v.config) cms [])
+      = .ok { st with lp := st.lp.setConfig (stripBraces v.config), titleParagraph := [] } := by
+  have hcfg := cfg_eval env li v.config wf.2.2.1
+  simp only [stepTok, hcfg, addAll, List.getLast?_nil]
+
 theorem parse_items (env : Env) :
-    ∀ (items : List Item), (∀ it ∈ items, it.WF env) →
-      ∀ (cs : Bool) (li : Nat) (st : PState), Clean st.lp →
+    ∀ (items : List Item) (cs : Bool), ItemsWF env cs items →
+      ∀ (li : Nat) (st : PState), Clean st.lp →
         ∃ st', parseTokens env st (runP env.languages .top cs li (render items)) = .ok st' ∧
-          st'.docConfigs = st.docConfigs ∧
+          st'.docConfigs = st.docConfigs ++ docTexts items ∧
           st'.lp.testcases
             = st.lp.testcases ++ expectedTests env items li st.lp.title st.titleParagraph := by
   intro items
   induction items with
   | nil =>
-    intro _ cs li st _
-    exact ⟨st, by simp [render, runP, Mode.flushTok, parseTokens], rfl, by simp [expectedTests]⟩
+    intro cs _ li st _
+    exact ⟨st, by simp [render, runP, Mode.flushTok, parseTokens], by simp [docTexts], by simp [expectedTests]⟩
   | cons it r ih =>
-    intro hwf cs li st hc
-    have hr : ∀ it ∈ r, it.WF env := fun x hx => hwf x (by simp [hx])
+    intro cs hwf li st hc
+    obtain ⟨hit, hr⟩ := hwf
     cases it with
     | prose l =>
-      obtain ⟨hx, hne⟩ : extractCodeBlockStart l = .ok none ∧ l ≠ frontMatterFence := hwf (.prose l) (by simp)
-      have h1 : (!cs && decide (l = frontMatterFence)) = false := by simp [hne]
-      simp only [render]
+      obtain ⟨hx, hne⟩ : extractCodeBlockStart l = .ok none ∧ (cs = false → l ≠ frontMatterFence) := hit
+      have h1 : (!cs && decide (l = frontMatterFence)) = false := by
+        cases cs
+        · simp [hne rfl]
+        · rfl
+      simp only [render, Item.lines, List.cons_append, List.nil_append]
       rw [runP_top_cons]
-      simp only [h1, fencePure_none_of hx, Bool.false_eq_true, if_false, parseTokens, stepTok, expectedTests]
+      simp only [h1, fencePure_none_of hx, Bool.false_eq_true, if_false, parseTokens, stepTok, expectedTests,
+        docTexts]
       cases ht : extractTitle env.isLetter l with
       | some x =>
         simp only []
-        exact ih hr _ _ { st with titleParagraph := st.titleParagraph ++ [x],
+        exact ih _ hr _ { st with titleParagraph := st.titleParagraph ++ [x],
                                   lp := st.lp.setTitle (joinNl (st.titleParagraph ++ [x])) }
           ⟨hc.cmd, hc.exps, hc.code, hc.osi, hc.amc⟩
       | none =>
         simp only []
-        exact ih hr _ _ { st with titleParagraph := [] } hc
-    | block b =>
-      have wf : b.WF env := hwf (.block b) (by simp)
+        exact ih _ hr _ { st with titleParagraph := [] } hc
+    | front body =>
+      obtain ⟨hcs, hb, hok⟩ : cs = false ∧ (∀ x ∈ body, x ≠ frontMatterFence) ∧ env.docCfgOk (joinNl body) = true := hit
+      subst hcs
       simp only [render]
+      rw [runP_front _ body hb]
+      simp only [parseTokens, stepTok, joinNumbered_number, hok, if_true, expectedTests, docTexts]
+      obtain ⟨st', h2, hd2, htc2⟩ := ih false hr (li + (body.length + 2))
+        { st with docConfigs := st.docConfigs ++ [joinNl body] } hc
+      exact ⟨st', h2, by simp [hd2], htc2⟩
+    | block b =>
+      have wf : b.WF env := hit
+      simp only [render, Item.lines]
       rw [runP_block env b wf]
       obtain ⟨st1, h1, hc1, ht1, htp1, hd1, htc1⟩ :=
         stepTok_block env b wf st hc li (li + 1 + b.comments.length) (number (li + 1) b.comments)
       simp only [parseTokens, h1]
-      obtain ⟨st', h2, hd2, htc2⟩ := ih hr true (li + b.lines.length) st1 hc1
-      refine ⟨st', h2, by rw [hd2, hd1], ?_⟩
+      obtain ⟨st', h2, hd2, htc2⟩ := ih true hr (li + b.lines.length) st1 hc1
+      refine ⟨st', h2, by rw [hd2, hd1]; simp [docTexts], ?_⟩
       rw [htc2, htc1, ht1, htp1]
       simp [expectedTests]
+    | foreign v =>
+      have wf : v.ForeignWF env := hit
+      have hlang : v.language.isEmpty = false := by
+        have := wf.2.2.1
+        cases hh : v.language <;> simp_all
+      simp only [render, Item.lines]
+      rw [runP_foreign env v wf]
+      simp only [parseTokens, stepTok, hlang, Bool.false_eq_true, if_false, expectedTests, docTexts]
+      exact ih true hr (li + v.lines.length) st hc
+    | noCommand v =>
+      have wf : v.NoCommandWF env := hit
+      simp only [render, Item.lines]
+      rw [runP_noCommand env v wf]
+      simp only [parseTokens, stepTok_noCommand env v wf, expectedTests, docTexts]
+      exact ih true hr (li + v.lines.length)
+        { st with lp := st.lp.setConfig (stripBraces v.config), titleParagraph := [] }
+        ⟨hc.cmd, hc.exps, hc.code, hc.osi, hc.amc⟩
 
-theorem parseLines_render (env : Env) (items : List Item) (hwf : ∀ it ∈ items, it.WF env) :
+theorem parseLines_render (env : Env) (items : List Item) (hwf : ItemsWF env false items) :
     parseLines env (render items)
-      = .ok { docConfigs := [], tests := expectedTests env items 0 none [] } := by
-  obtain ⟨st', h, hd, ht⟩ := parse_items env items hwf false 0 {}
-    ⟨rfl, rfl, rfl, rfl, rfl⟩
+      = .ok { docConfigs := docTexts items, tests := expectedTests env items 0 none [] } := by
+  obtain ⟨st', h, hd, ht⟩ := parse_items env items false hwf 0 {} ⟨rfl, rfl, rfl, rfl, rfl⟩
   simp only [parseLines, tokenize_eq, h]
   rw [hd, ht]
   rfl
 
-/-! ## count, order and content do not depend on the prose -/
+/-! ## count, order and content do not depend on what stands between the blocks -/
 
 theorem expectedTests_core (env : Env) :
     ∀ (items : List Item) (li : Nat) (t : Option Line) (tp : List Line),
@@ -316,29 +452,84 @@ theorem expectedTests_core (env : Env) :
     | block b =>
       simp only [expectedTests, writtenCores, List.map_cons, ih]
       rfl
+    | front body => simp only [expectedTests, writtenCores]; exact ih _ _ _
+    | foreign v => simp only [expectedTests, writtenCores]; exact ih _ _ _
+    | noCommand v => simp only [expectedTests, writtenCores]; exact ih _ _ _
 
-theorem writtenCores_insert_prose (pre post : List Item) (p : Line) :
-    writtenCores (pre ++ .prose p :: post) = writtenCores (pre ++ post) := by
+theorem writtenCores_insert (pre post : List Item) (x : Item) (hx : x.inert = true) :
+    writtenCores (pre ++ x :: post) = writtenCores (pre ++ post) := by
   induction pre with
-  | nil => rfl
+  | nil => cases x <;> simp_all [writtenCores, Item.inert]
   | cons it r ih => cases it <;> simp [writtenCores, ih]
 
-theorem prose_inert (env : Env) (pre post : List Item) (p : Line)
-    (wf : ∀ it ∈ pre ++ post, it.WF env) (hp : Item.WF env (.prose p)) :
-    ∃ ts ts', parseLines env (render (pre ++ post)) = .ok { docConfigs := [], tests := ts } ∧
-      parseLines env (render (pre ++ .prose p :: post)) = .ok { docConfigs := [], tests := ts' } ∧
-      ts'.map TestCase.core = ts.map TestCase.core := by
-  have wf' : ∀ it ∈ pre ++ .prose p :: post, it.WF env := by
-    intro it hit
-    simp only [List.mem_append, List.mem_cons] at hit
-    rcases hit with h | rfl | h
-    · exact wf it (by simp [h])
-    · exact hp
-    · exact wf it (by simp [h])
-  refine ⟨_, _, parseLines_render env _ wf, parseLines_render env _ wf', ?_⟩
-  rw [expectedTests_core, expectedTests_core, writtenCores_insert_prose]
+theorem docTexts_insert (pre post : List Item) (x : Item) (hx : x.inert = true) :
+    docTexts (pre ++ x :: post) = docTexts (pre ++ post) := by
+  induction pre with
+  | nil => cases x <;> simp_all [docTexts, Item.inert]
+  | cons it r ih => cases it <;> simp [docTexts, ih]
 
-/-- line numbers of the tests: strictly increasing, each the line of a `$` -/
+theorem itemsWF_append (env : Env) (pre post : List Item) :
+    ∀ cs, ItemsWF env cs (pre ++ post) ↔ ItemsWF env cs pre ∧ ItemsWF env (csAfterAll cs pre) post := by
+  induction pre with
+  | nil => intro cs; simp [ItemsWF, csAfterAll]
+  | cons it r ih => intro cs; simp [ItemsWF, csAfterAll, ih, and_assoc]
+
+/-- without front-matter, well-formedness survives a later `content_start` -/
+theorem itemsWF_mono (env : Env) (items : List Item) (hnf : noFront items = true) :
+    ∀ cs cs', (cs = true → cs' = true) → ItemsWF env cs items → ItemsWF env cs' items := by
+  induction items with
+  | nil => intro _ _ _ _; trivial
+  | cons it r ih =>
+    intro cs cs' hle hwf
+    obtain ⟨hit, hr⟩ := hwf
+    cases it with
+    | prose l =>
+      refine ⟨⟨hit.1, fun h => hit.2 ?_⟩, ih (by simpa [noFront] using hnf) _ _ ?_ hr⟩
+      · cases cs
+        · rfl
+        · simp [hle rfl] at h
+      · intro h
+        simp only [Item.csAfter, Bool.or_eq_true] at h ⊢
+        rcases h with h | h
+        · exact Or.inl (hle h)
+        · exact Or.inr h
+    | front body => simp [noFront] at hnf
+    | block b => exact ⟨hit, ih (by simpa [noFront] using hnf) _ _ (fun h => h) hr⟩
+    | foreign v => exact ⟨hit, ih (by simpa [noFront] using hnf) _ _ (fun h => h) hr⟩
+    | noCommand v => exact ⟨hit, ih (by simpa [noFront] using hnf) _ _ (fun h => h) hr⟩
+
+theorem csAfter_mono (cs : Bool) (x : Item) (hx : x.inert = true) : cs = true → x.csAfter cs = true := by
+  intro h
+  cases x <;> simp_all [Item.csAfter, Item.inert]
+
+/-- inserting an inert item (prose line, foreign block, scrut block without command) anywhere
+behind the front-matter keeps the document well-formed -/
+theorem itemsWF_insert (env : Env) (pre post : List Item) (x : Item) (hx : x.inert = true)
+    (hnf : noFront post = true) (cs : Bool) (hwf : ItemsWF env cs (pre ++ post))
+    (hxwf : x.WF env (csAfterAll cs pre)) : ItemsWF env cs (pre ++ x :: post) := by
+  rw [itemsWF_append] at hwf ⊢
+  exact ⟨hwf.1, hxwf, itemsWF_mono env post hnf _ _ (csAfter_mono _ x hx) hwf.2⟩
+
+theorem insert_inert (env : Env) (pre post : List Item) (x : Item) (hx : x.inert = true)
+    (hnf : noFront post = true) (hwf : ItemsWF env false (pre ++ post))
+    (hxwf : x.WF env (csAfterAll false pre)) :
+    ∃ ts ts', parseLines env (render (pre ++ post)) = .ok { docConfigs := docTexts (pre ++ post), tests := ts } ∧
+      parseLines env (render (pre ++ x :: post))
+        = .ok { docConfigs := docTexts (pre ++ post), tests := ts' } ∧
+      ts'.map TestCase.core = ts.map TestCase.core := by
+  have hwf' := itemsWF_insert env pre post x hx hnf false hwf hxwf
+  refine ⟨expectedTests env (pre ++ post) 0 none [], expectedTests env (pre ++ x :: post) 0 none [],
+    parseLines_render env _ hwf, ?_, ?_⟩
+  · rw [← docTexts_insert pre post x hx]
+    exact parseLines_render env _ hwf'
+  · rw [expectedTests_core, expectedTests_core, writtenCores_insert pre post x hx]
+
+/-- line numbers of the tests: each the line of a `$` -/
+theorem render_skip (its : List Line) (rest : List Line) (n : Nat) :
+    (its ++ rest)[its.length + n]? = rest[n]? := by
+  rw [List.getElem?_append_right (by omega)]
+  simp
+
 theorem expectedTests_lines (env : Env) :
     ∀ (items : List Item) (li : Nat) (t : Option Line) (tp : List Line),
       ∀ x ∈ expectedTests env items li t tp, li < x.lineNumber ∧
@@ -348,30 +539,40 @@ theorem expectedTests_lines (env : Env) :
   | nil => intro _ _ _ x hx; simp [expectedTests] at hx
   | cons it r ih =>
     intro li t tp x hx
+    -- an item that yields no test: skip its lines
+    have skip : ∀ (t' : Option Line) (tp' : List Line), x ∈ expectedTests env r (li + it.lines.length) t' tp' →
+        li < x.lineNumber ∧ (render (it :: r))[x.lineNumber - 1 - li]? = some ('$' :: ' ' :: (x.command.headD [])) := by
+      intro t' tp' h
+      obtain ⟨h1, h2⟩ := ih _ _ _ x h
+      refine ⟨by omega, ?_⟩
+      have e : x.lineNumber - 1 - li = it.lines.length + (x.lineNumber - 1 - (li + it.lines.length)) := by omega
+      rw [e]
+      simp only [render]
+      rw [render_skip]
+      exact h2
     cases it with
     | prose l =>
       simp only [expectedTests] at hx
       have : ∃ t' tp', x ∈ expectedTests env r (li + 1) t' tp' := by
         split at hx <;> exact ⟨_, _, hx⟩
       obtain ⟨t', tp', h⟩ := this
-      obtain ⟨h1, h2⟩ := ih _ _ _ x h
-      refine ⟨by omega, ?_⟩
-      have e : x.lineNumber - 1 - li = (x.lineNumber - 1 - (li + 1)) + 1 := by omega
-      rw [e]
-      simpa [render] using h2
+      exact skip t' tp' (by simpa [Item.lines] using h)
+    | front body =>
+      simp only [expectedTests] at hx
+      exact skip _ _ (by simpa [Item.lines] using hx)
+    | foreign v =>
+      simp only [expectedTests] at hx
+      exact skip _ _ (by simpa [Item.lines] using hx)
+    | noCommand v =>
+      simp only [expectedTests] at hx
+      exact skip _ _ (by simpa [Item.lines] using hx)
     | block b =>
       simp only [expectedTests, List.mem_cons] at hx
       rcases hx with rfl | h
       · refine ⟨by simp; omega, ?_⟩
         have e : li + 1 + b.comments.length + 1 - 1 - li = b.comments.length + 1 := by omega
-        simp only [e, render, Block.lines, Block.body, Block.code, Block.cmdLine, List.headD_cons]
+        simp only [e, render, Item.lines, Block.lines, Block.body, Block.code, Block.cmdLine, List.headD_cons]
         simp
-      · obtain ⟨h1, h2⟩ := ih _ _ _ x h
-        refine ⟨by omega, ?_⟩
-        have e : x.lineNumber - 1 - li = b.lines.length + (x.lineNumber - 1 - (li + b.lines.length)) := by omega
-        rw [e]
-        simp only [render]
-        rw [List.getElem?_append_right (by omega)]
-        simpa using h2
+      · exact skip _ _ (by simpa [Item.lines] using h)
 
 end Scrut.Markdown
